@@ -409,8 +409,8 @@ def scanExp (p : Bytes × Bytes) : LexRes :=
   | e :: r3 => if e = 101 ∨ e = 69 then scanExpDigits (scanExpSign p.1 e r3) else .tok p.1 p.2
   | [] => .tok p.1 p.2
 
-/-- parse/lexer.go scanNumber (`ch` = first character, already consumed). -/
-def scanNumber (ch : Nat) (inp : Bytes) : LexRes :=
+/-- parse/lexer.go scanNumber up to its calls of `numeralEnd` (`ch` = first character, already consumed). -/
+def scanNumberCore (ch : Nat) (inp : Bytes) : LexRes :=
   match inp with
   | x :: t =>
     if ch = 48 ∧ (x = 120 ∨ x = 88) then
@@ -418,6 +418,41 @@ def scanNumber (ch : Nat) (inp : Bytes) : LexRes :=
       if h.1.length = 2 then .err else .tok h.1 h.2
     else scanExp (scanFrac ch (scanDecimal [ch] inp))
   | [] => scanExp (scanFrac ch (scanDecimal [ch] inp))
+
+/-- parse/lexer.go isIdent(ch, 1). -/
+def isIdentCh (c : Nat) : Bool :=
+  c = 95 || (65 ≤ c && c ≤ 90) || (97 ≤ c && c ≤ 122) || isDec c
+
+/-- parse/lexer.go numeralEnd(buf, dots) (since /repo 1a55d79): a numeral directly followed by an alphanumeric character
+    or `_` — and, where no exponent or hex prefix was read (`dots`), by a `.` — is ONE malformed number. -/
+def numeralEnd (dots : Bool) : LexRes → LexRes
+  | .tok t (c :: rest) => if isIdentCh c || (dots && c == 46) then .err else .tok t (c :: rest)
+  | r => r
+
+/-- which `numeralEnd` call scanNumber reaches: `dots = true` only on the decimal path without an exponent. -/
+def numeralDots (ch : Nat) (inp : Bytes) : Bool :=
+  let isHex : Bool := match inp with
+    | x :: _ => ch == 48 && (x == 120 || x == 88)
+    | [] => false
+  if isHex then false
+  else match (scanFrac ch (scanDecimal [ch] inp)).2 with
+    | e :: _ => !(e == 101 || e == 69)
+    | [] => true
+
+/-- parse/lexer.go scanNumber (`ch` = first character, already consumed). -/
+def scanNumber (ch : Nat) (inp : Bytes) : LexRes :=
+  numeralEnd (numeralDots ch inp) (scanNumberCore ch inp)
+
+theorem numeralEnd_tok (d : Bool) (r : LexRes) (t rest : Bytes) (h : numeralEnd d r = .tok t rest) : r = .tok t rest := by
+  unfold numeralEnd at h
+  split at h
+  · split at h
+    · simp at h
+    · exact h
+  · exact h
+
+theorem numeralEnd_nil (d : Bool) (t : Bytes) : numeralEnd d (.tok t []) = .tok t [] := by
+  simp [numeralEnd]
 
 /-- `Scanner.Scan` as far as number tokens are concerned: skip white space, then dispatch on the first byte. -/
 def lexNumber (scan : Nat → Bytes → LexRes) (s : Bytes) : LexRes :=
